@@ -103,6 +103,28 @@ def oracle(chk: core.Check, thorough: bool):
     expect("parse_mdc_gid(scalar)", {"gid": exp_gid[idx[::11]]}, np.array([int(s["gid"]) * 1000 + int(s["wire"]) for s in sc]), exp_gid[idx[::11]] * 1000 + wire[idx[::11]])
     ja = ak.unflatten(ak.Array(ids), [NW // 2, NW - NW // 2])
     expect("parse_mdc_digi_id(awkward).gid", {"digi_id": ids}, ak.to_numpy(ak.flatten(det.parse_mdc_digi_id(ja)["gid"])), exp_gid)
+    # the gid obtained by parsing an identifier is the gid of its decoded (layer, wire) whatever the other bits of the word say: wire-type flag
+    # opposite to the geometry, undefined bits 16-23 set
+    for what, ids2 in (("wire-type flag inverted", did.get_mdc_digi_id(wire.astype(np.uint32), layer.astype(np.uint32), (1 - z["is_stereo"]).astype(np.uint32))),
+                       ("wire-type flag 0", did.get_mdc_digi_id(wire.astype(np.uint32), layer.astype(np.uint32), np.zeros(NW, dtype=np.uint32))),
+                       ("undefined bits set", (np.asarray(ids, dtype=np.uint32) | (rng.integers(1, 256, NW).astype(np.uint32) << np.uint32(16))))):
+        p2 = det.parse_mdc_digi_id(np.asarray(ids2, dtype=np.uint32))
+        fields_gid = det.get_mdc_gid(did.mdc_id_to_layer(np.asarray(ids2, dtype=np.uint32)), did.mdc_id_to_wire(np.asarray(ids2, dtype=np.uint32)))
+        expect(f"parse_mdc_digi_id.gid ({what})", {"digi_id": np.asarray(ids2)}, p2["gid"], fields_gid, "gid from parsing the identifier == gid from its decoded fields")
+        expect(f"parse_mdc_digi_id.gid ({what}) vs element", {"digi_id": np.asarray(ids2)}, p2["gid"], exp_gid, "parsing returns the element the identifier was built from")
+    # call history on ONE buffer object refilled in place (a block-wise reader with a preallocated buffer): results follow the content
+    perm = rng.permutation(NW)
+    for kind in ("numpy buffer", "zero-copy awkward view of the buffer"):
+        buf = np.array(ids, dtype=np.uint32)
+        arg = buf if kind == "numpy buffer" else ak.from_numpy(buf, regulararray=False)
+        first = np.asarray(det.parse_mdc_digi_id(arg)["gid"]).copy()
+        buf[:] = np.asarray(ids, dtype=np.uint32)[perm]
+        second = np.asarray(det.parse_mdc_digi_id(arg)["gid"])
+        expect(f"parse_mdc_digi_id on a {kind}, first call", {"digi_id": ids}, first, exp_gid)
+        expect(f"parse_mdc_digi_id on a {kind} refilled in place, second call", {"digi_id": np.asarray(ids)[perm]}, second, exp_gid[perm], "same function, same object, new content: the gid of the identifiers now in the buffer")
+        gb = np.array(exp_gid, dtype=np.int64)
+        det.mdc_gid_to_wire(gb); gb[:] = exp_gid[perm]
+        expect(f"mdc_gid_to_wire on a buffer refilled in place", {"gid": exp_gid[perm]}, det.mdc_gid_to_wire(gb), wire[perm])
     # ---------------- EMC
     doc = doc_emc_table()
     if len(doc) != NC:
@@ -133,6 +155,18 @@ def oracle(chk: core.Check, thorough: bool):
     expect("parse_emc_gid(scalar)", {"gid": G[jdx[::5]]}, np.array([int(s["gid"]) * 128 + int(s["phi"]) for s in sc]), G[jdx[::5]] * 128 + F[jdx[::5]])
     ja = ak.unflatten(ak.Array(ids), [100, NC - 100])
     expect("parse_emc_digi_id(awkward).gid", {"digi_id": ids}, ak.to_numpy(ak.flatten(det.parse_emc_digi_id(ja)["gid"])), G)
+    ids2 = np.asarray(ids, dtype=np.uint32) | (rng.integers(1, 16, NC).astype(np.uint32) << np.uint32(20))
+    expect("parse_emc_digi_id.gid (undefined bits set)", {"digi_id": ids2}, det.parse_emc_digi_id(ids2)["gid"],
+           det.get_emc_gid(did.emc_id_to_module(ids2), did.emc_id_to_theta(ids2), did.emc_id_to_phi(ids2)), "gid from parsing the identifier == gid from its decoded fields")
+    perm = rng.permutation(NC)
+    for kind in ("numpy buffer", "zero-copy awkward view of the buffer"):
+        buf = np.array(ids, dtype=np.uint32)
+        arg = buf if kind == "numpy buffer" else ak.from_numpy(buf, regulararray=False)
+        first = np.asarray(det.parse_emc_digi_id(arg)["gid"]).copy()
+        buf[:] = np.asarray(ids, dtype=np.uint32)[perm]
+        second = np.asarray(det.parse_emc_digi_id(arg)["gid"])
+        expect(f"parse_emc_digi_id on a {kind}, first call", {"digi_id": ids}, first, G)
+        expect(f"parse_emc_digi_id on a {kind} refilled in place, second call", {"digi_id": np.asarray(ids)[perm]}, second, G[perm], "same function, same object, new content: the gid of the identifiers now in the buffer")
     # top-level re-exports are the same callables
     for n in ["get_mdc_gid", "get_emc_gid", "parse_mdc_gid", "parse_emc_gid", "parse_mdc_digi_id", "parse_emc_digi_id", "mdc_gid_to_layer", "mdc_gid_to_wire"]:
         if getattr(pybes3, n) is not getattr(det, n):
